@@ -62,6 +62,25 @@ Definition source_phase_factor (f fp : Q) : option Z :=
   else if is_int_or_inverse_int rtol (quot f fp) then Some (round_half_even (Qmax2 (quot f fp) 1))
   else None.
 
+(* the quotient AS CODED, from the STORED values: `pulse_frequency.to(unit=frequency.unit)` keeps the dtype, and
+   scipp rounds an integer-dtype variable to the nearest integer (ties away from zero) when converting its unit
+   (probed: 1500 Hz -> 2 kHz, 2500 Hz -> 3 kHz, -1500 Hz -> -2 kHz, 850 1/min -> 14 Hz); `frequency / pulse_frequency`
+   is a true division (float64) for every dtype.  fs, ps: stored values; conv: pulse unit / frequency unit.
+   None: the converted pulse frequency is 0 (the quotient is infinite: accepted through its inverse 0, then
+   round(inf) raises OverflowError). *)
+Definition round_away (x : Q) : Z :=
+  if Qle_bool 0 x then Qfloor (x + (1 # 2)) else (- Qfloor (- x + (1 # 2)))%Z.
+Definition convert_stored (is_int : bool) (x conv : Q) : Q :=
+  if is_int then inject_Z (round_away (x * conv)) else x * conv.
+Definition quot_coded (fs ps conv : Q) (p_is_int : bool) : option Q :=
+  let p := convert_stored p_is_int ps conv in
+  if Qeq_bool p 0 then None else Some (Qabs fs / p).
+Definition coded_accepts (q : option Q) : bool :=
+  match q with None => true | Some x => is_int_or_inverse_int rtol x end.
+Definition coded_repetitions (q : option Q) : option Z :=
+  match q with None => None | Some x => Some (round_half_even (Qmax2 x 1)) end.
+(* repaired: the pulse frequency is converted in float64, so the quotient is the physical one (source_phase_factor) *)
+
 (* ---- _check_edges / _check_edge_overlap *)
 Definition begin_le_end (sl : list slit) : bool := forallb (fun s => Qle_bool (sb s) (se s)) sl.
 Fixpoint insert (s : slit) (l : list slit) : list slit :=
